@@ -223,6 +223,15 @@ var replacements = []func(t *rapid.T, old any) any{
 		return "x"
 	},
 	func(t *rapid.T, old any) any { return []any{copyTree(old)} },
+	func(t *rapid.T, old any) any { // the value repeated: a list whose members are all equal
+		n := 2 + Uniform(t, "repeat", 2)
+		out := make([]any, n)
+		for i := range out {
+			out[i] = copyTree(old)
+		}
+		return out
+	},
+	func(t *rapid.T, old any) any { return []any{nil, nil} },
 	func(t *rapid.T, old any) any { return map[string]any{"schema": copyTree(old), "items": copyTree(old)} },
 	func(t *rapid.T, old any) any {
 		return deepNest([]int{5, 50, 200}[Uniform(t, "depth", 3)], []string{"not", "items", "additionalProperties", "[", "properties", "allOf"}[Uniform(t, "nestkw", 6)])
